@@ -27,6 +27,33 @@ def run(fx, rep, tier):
     rule_pack(fx, rep)
     rule_bound(fx, rep)
     rule_cone(fx, rep)
+    rule_evalop(fx, rep)
+
+
+def rule_evalop(fx, rep):
+    """C16-CONE/evalop. The score types' own operators are unchecked i16 / i32 arithmetic; inside the evaluation their call sites
+    are sums of bounded terms (C16-BOUND). A call site in the evaluation that *scales* the blended value - `eval * k`, k not a
+    constant in {-1, 0, 1} - is no such sum and leaves i16 long before the mate threshold: the C04-EVALOP classification of the
+    evaluation's own call sites, re-reported here."""
+    import core
+    import pC04
+    roots = [b.name for b in fx.fn_bodies() if norm(b.name) in ("engine::eval::eval", "engine::eval::absolute_eval_with_trace") or norm(b.name).startswith("engine::eval::absolute_eval_with_trace")]
+    if not roots:
+        rep.rule("C16-CONE/evalop", 0, 0, True, "evaluation entry not found: not decided")
+        return
+    sub = type(rep)(rep.prop, rep.tier)
+    q = core.QUIET
+    core.QUIET = True
+    try:
+        pC04.rule_evalop(fx, sub, fx.cone(roots))
+    finally:
+        core.QUIET = q
+    vs = [v for v in sub.violations if v["key"].startswith("C04-EVALOP/engine::eval::")]
+    for v in vs:
+        rep.violation("C16-CONE", v["key"].replace("C04-EVALOP/", "C16-CONE/evalop/"), v["msg"] + " (the evaluation then does not complete, or wraps, for a legal position)", v["site"])
+    rep.obligations += sub.obligations
+    rep.discharged += sub.discharged
+    rep.rule("C16-CONE/evalop", sub.obligations, 0, not vs, "score arithmetic at the evaluation's own call sites (shared with C04-EVALOP)")
 
 
 def rule_cone(fx, rep):
@@ -1124,6 +1151,8 @@ PH = "src/engine/eval/phased_eval.rs"
 PS = "src/engine/eval/piece_square_tables.rs"
 PA = "src/engine/eval/params.rs"
 MUTANTS = [
+    {"name": "blended score faded towards zero by plain i16 multiplication (seed C16-11a)", "expect": "C16-CONE/evalop",
+     "edits": __import__("shared_mutants").edits_from_patch("seeded/C16-11a/patch.diff")},
     {"name": "every term blended on its own and the blends added (seed C16-8a)", "expect": "C16-BLEND/once",
      "edits": [("src/engine/eval/mod.rs", "    let eval = game.incremental_eval.piece_square_tables\n        + material::eval::<TRACE>(game, trace)\n        + mobility_and_king_safety::eval::<TRACE>(game, trace)\n        + pawn_structure::eval::<TRACE>(game, trace);\n\n    eval.for_phase(game.incremental_eval.phase_value)",
                 "    let phase_value = game.incremental_eval.phase_value;\n\n    game.incremental_eval.piece_square_tables.for_phase(phase_value)\n        + material::eval::<TRACE>(game, trace).for_phase(phase_value)\n        + mobility_and_king_safety::eval::<TRACE>(game, trace).for_phase(phase_value)\n        + pawn_structure::eval::<TRACE>(game, trace).for_phase(phase_value)")]},
